@@ -15,7 +15,7 @@
    it).  Pruning (null child object, port_is_enabled) is an oracle over the
    address of the sub-tree, as in DESIGN section 4 C09. *)
 From Coq Require Import List ZArith Bool Arith.
-From RtoscV Require Import Ports.MetaModel Ports.NameModel Ports.PathModel.
+From RtoscV Require Import Match.PatSpec Match.MatchModel Ports.MetaModel Ports.NameModel Ports.PathModel.
 Import ListNotations.
 Local Open Scope Z_scope.
 
